@@ -62,6 +62,7 @@ def poolStep (st : PoolSt) (op : List String) (env : List (Option Nat)) : PoolSt
     | ["t_dealloc_array", a, c, s] => presPool st (p.traitsDeallocateArray cfg (nat! a) (nat! c) (nat! s))
     | ["t_try_alloc_node", s, al] => presPool st (p.traitsTryAllocateNode (nat! s) (nat! al))
     | ["t_try_alloc_array", c, s, al] => presPool st (p.traitsTryAllocateArray (nat! c) (nat! s) (nat! al))
+    | "bad_dealloc_node" :: a :: _ => (st, badClass (p.deallocateNode cfg (nat! a)).out, "", p.str)
     | ["capacity_left"] => (st, (Out.num p.capacityLeft).str, "", p.str)
     | ["next_capacity"] => (st, (Out.num p.nextCapacity).str, "", p.str)
     | "move" :: rest =>
